@@ -38,10 +38,14 @@ Definition trim (x : str) : str := trim_end (trim_start x).
 Definition velems (ks : list vnode) : list vnode :=
   filter (fun k => match k with VElem _ _ _ _ => true | _ => false end) ks.
 Definition has_velem (ks : list vnode) : bool := negb (is_nil (velems ks)).
-(* character data of an element: maximal runs of Text / CDATA pieces (comments and PIs do not
-   split a run, child elements do); in each run a leading Text piece is trimmed at its start, a
-   trailing Text piece at its end, CDATA is never trimmed; runs that come out empty (the
-   whitespace between child elements) are dropped *)
+(* character data of an element, as quick_xml::de 0.37 delivers it (StartTrimmer, XmlReader::next,
+   drain_text): maximal runs of Text / CDATA pieces (comments and PIs do not split a run, child
+   elements do).  Within a run the leading Text pieces that are only white space are skipped (the
+   reader keeps trimming at the start until something is delivered); a run with nothing left
+   delivers nothing.  Otherwise one text is delivered: the first piece, if Text, trimmed at its
+   start; the last piece, if Text, trimmed at its end; CDATA never trimmed, middle pieces never
+   trimmed.  A run made of CDATA only can deliver the EMPTY text (`<![CDATA[]]>`): quick_xml::de
+   still reports a `$text` key for it. *)
 Fixpoint piece_runs (ks : list vnode) (cur : list (bool * str)) : list (list (bool * str)) :=
   match ks with
   | [] => [cur]
@@ -50,32 +54,49 @@ Fixpoint piece_runs (ks : list vnode) (cur : list (bool * str)) : list (list (bo
   | VMisc :: r => piece_runs r cur
   | VElem _ _ _ _ :: r => cur :: piece_runs r []
   end.
-Definition run_text (ps : list (bool * str)) : str :=
+Fixpoint drop_blank (ps : list (bool * str)) : list (bool * str) :=
   match ps with
-  | [] => []
-  | [(true, t)] => trim t
+  | (true, t) :: r => if is_nil (trim_start t) then drop_blank r else ps
+  | _ => ps
+  end.
+Definition run_text (ps : list (bool * str)) : option str :=
+  match drop_blank ps with
+  | [] => None
+  | [(true, t)] => Some (trim t)
   | (b, t) :: rest =>
       let first := if b then trim_start t else t in
       let mid := removelast rest in
       let '(bl, tl) := last rest (false, []) in
-      first ++ List.concat (map snd mid) ++ (if bl then trim_end tl else tl)
+      Some (first ++ List.concat (map snd mid) ++ (if bl then trim_end tl else tl))
   end.
-Definition text_runs (ks : list vnode) : list str :=
-  filter (fun x => negb (is_nil x)) (map run_text (piece_runs ks [])).
+(* serde-xml-rs 0.6.0 (xml-rs with trim_whitespace, cdata_to_characters, coalesce_characters):
+   the pieces of a run are joined first and the whole is trimmed, CDATA included; a run that
+   comes out empty delivers nothing *)
+Definition run_text_joined (ps : list (bool * str)) : option str :=
+  let x := trim (List.concat (map snd ps)) in
+  if is_nil x then None else Some x.
+(* `verbatim` = CDATA is never trimmed (quick_xml::de) *)
+Definition run_out (verbatim : bool) (ps : list (bool * str)) : list str :=
+  match (if verbatim then run_text ps else run_text_joined ps) with
+  | Some x => [x]
+  | None => []
+  end.
+Definition text_runs (verbatim : bool) (ks : list vnode) : list str :=
+  flat_map (run_out verbatim) (piece_runs ks []).
 (* the content of a String-typed element (no child elements: one run) *)
-Definition text_of (ks : list vnode) : str := List.concat (text_runs ks).
+Definition text_of (verbatim : bool) (ks : list vnode) : str := List.concat (text_runs verbatim ks).
 
 (* the deserializer flavour *)
 Record flavour := {
   fl_attr_prefix : str;          (* "@" for quick_xml::de, "" for serde-xml-rs *)
   fl_text_key : str;             (* the key character data arrives under: "$text" / "$value" *)
   fl_overlapped : bool;          (* may the occurrences of a repeated child be interleaved with others? *)
-  fl_empty_string_none : bool    (* placeholder for flavour-specific treatment; unused *)
+  fl_verbatim : bool             (* CDATA is never trimmed and an empty delivery still counts (quick_xml::de) *)
 }.
 Definition qx_flavour : flavour :=
-  {| fl_attr_prefix := s "@"; fl_text_key := s "$text"; fl_overlapped := true; fl_empty_string_none := false |}.
+  {| fl_attr_prefix := s "@"; fl_text_key := s "$text"; fl_overlapped := true; fl_verbatim := true |}.
 Definition sx_flavour : flavour :=
-  {| fl_attr_prefix := []; fl_text_key := s "$value"; fl_overlapped := false; fl_empty_string_none := false |}.
+  {| fl_attr_prefix := []; fl_text_key := s "$value"; fl_overlapped := false; fl_verbatim := false |}.
 
 Definition attr_key (fl : flavour) (a : str) : str :=
   fl_attr_prefix fl ++ (if starts_with_xmlns a then a else remove_namespace a).
@@ -123,14 +144,14 @@ Fixpoint de_as (fl : flavour) (ps : list structdef) (deny : bool) (v : vnode) (t
   | VElem n ef attrs kids0 =>
       let kids := if ef then [] else kids0 in
       match ty with
-      | TyString => if has_velem kids then None else Some (FStr (text_of kids))
+      | TyString => if has_velem kids then None else Some (FStr (text_of (fl_verbatim fl) kids))
       | TyStruct sn =>
           match find_sd ps sn with
           | None => None
           | Some sd =>
               let akeys := map (fun a => (attr_key fl (fst a), snd a)) attrs in
               let ekeys := flat_map vkey kids in
-              let txts := text_runs kids in
+              let txts := text_runs (fl_verbatim fl) kids in
               let has_txt := negb (is_nil txts) in
               let known (b : str) := existsb (fun f => str_eqb (fbound f) b) (sd_fields sd) in
               let unknown_ok :=
@@ -194,16 +215,16 @@ Fixpoint leaves (v : fval) : list str :=
                      match l with [] => [] | x :: r => leaves (snd x) ++ go r end) fs
   end.
 
-(* the values a document holds: every attribute value, and the trimmed character data of every
-   element that has some *)
-Fixpoint doc_values (v : vnode) : list str :=
+(* the values a document holds: every attribute value, and the character data of every element
+   that has some, as the reader of the flavour delivers it *)
+Fixpoint doc_values (verbatim : bool) (v : vnode) : list str :=
   match v with
   | VElem _ ef attrs kids0 =>
       let kids := if ef then [] else kids0 in
       map snd attrs
-      ++ text_runs kids
+      ++ text_runs verbatim kids
       ++ (if ef then [] else
           (fix go (ks : list vnode) : list str :=
-             match ks with [] => [] | k :: r => doc_values k ++ go r end) kids0)
+             match ks with [] => [] | k :: r => doc_values verbatim k ++ go r end) kids0)
   | _ => []
   end.
